@@ -18,6 +18,10 @@ every gradient entry is judged on the scale of the terms it sums.  During every 
 over the optimiser's shoulder: the gradient SLSQP is handed when it asks for one is recorded (not altered) and three of
 these requests per fit (first, last, smallest amplitude) are compared with the model's Jacobian and with the oracle's
 numerical gradient of the log-likelihood at that very point.
+Deepening round D: `likwin` (likelihood where exp(-t_min/tau) underflows: the factored normalisation), `assemble`
+(_exponential_mle_optimize behind a stand-in optimiser: fixed-parameter masks, default guess, selected bounds / gradient,
+reported vector and likelihood; `_exponential_mle_optimize` unreachable -> "?") and `fbt` (fit_binding_times with options
+given or left out; public API only) cases, and deterministic small-scope fits.
 
 Private names (DESIGN.md C15, "Robustness against refactorings"): every private member of pylake is looked up at the point
 of use (`priv`, `takes`, getattr); when it is gone or takes other arguments the harness raises its own `Unreachable` and
@@ -49,17 +53,40 @@ THEOREMS = [
     "Verif.C15.pooled_density_integrates_to_one",
     "Verif.C15.discrete_sums_to_one",
     "Verif.C15.discrete_sum_excluding_tmax_lt_one",
+    "Verif.C15.continuous_integrates_to_one_unbounded",
+    "Verif.C15.discrete_sums_to_one_unbounded",
     "Verif.C15.relabel_invariant",
     "Verif.C15.relabel_invariant_logLik",
     "Verif.C15.amplitude_constraint_one_free",
     "Verif.C15.amplitude_constraint_simplex",
+    "Verif.C15.amplitude_constraint_refuses_iff",
+    "Verif.C15.reported_parameters_spec",
+    "Verif.C15.one_free_amplitude_reported_on_simplex",
+    "Verif.C15.default_guess_spec",
+    "Verif.C15.default_guess_accepted",
     "Verif.C15.one_component_mle",
     "Verif.C15.mle_scalar_limit",
+    "Verif.C15.one_component_mle_within_bounds",
     "Verif.C15.extraction_spec",
     "Verif.C15.extraction_refuses_iff",
     "Verif.C15.extraction_removed_flag",
+    "Verif.C15.extraction_spec_observed_minimum",
+    "Verif.C15.observed_minimum_is_least",
+    "Verif.C15.extraction_observed_minimum_never_refuses",
+    "Verif.C15.fit_binding_defaults",
+    "Verif.C15.fit_binding_rows_spec",
+    "Verif.C15.fit_binding_rows_legacy",
     "Verif.C15.gradient_continuous_correct_amp",
     "Verif.C15.gradient_continuous_correct_tau",
+    "Verif.C15.gradient_discrete_correct_amp",
+    "Verif.C15.gradient_discrete_correct_tau",
+    "Verif.C15.gradObs_correct_amp",
+    "Verif.C15.gradObs_correct_tau",
+    "Verif.C15.jacobian_is_gradient_amp",
+    "Verif.C15.jacobian_is_gradient_tau",
+    "Verif.C15.mask_inactive_within_bounds",
+    "Verif.C15.mask_active_drops_boundary_term",
+    "Verif.C15.clip_active_replaces_amplitude",
 ]
 RULE = (
     "small scope (likelihood: 1-3 components on a grid of amplitudes in quarters and lifetimes in {0.1,1,10}, windows "
@@ -88,7 +115,18 @@ RULE = (
     "group over two kymographs, ambiguous dwells kept and excluded), 'validate' (malformed constructor "
     "arguments). Non-trivial: likelihood case with >=2 components or a finite/discretised window; fit; constraint with "
     "a fixed entry or an error; extraction that drops at least one track and keeps at least one, or raises; edit sequence in "
-    "which an edit changed the tracks in the group and a later analysis handed rows over; rejected validation."
+    "which an edit changed the tracks in the group and a later analysis handed rows over; rejected validation. "
+    "Deepening round D: 'likwin' (likelihood and components at parameters inside the lifetime search bounds where the window "
+    "probability of some observation is below the range of doubles: two groups of observation limits whose minimum times "
+    "differ by a factor 160-2000, largest tmin/tau between 745 and 5000; small scope: 1-3 components x 2 ratios x 3 "
+    "windows x continuous/discretised; non-trivial when exp(-tmin/tau) underflows), 'assemble' (_exponential_mle_optimize "
+    "with scipy.optimize.minimize replaced by a stand-in that records start vector, bounds, constraint and the gradient "
+    "callback's answer at a probe point, answers the probe and lets the cost callback see another point last: every kind of "
+    "fixed-parameter mask, amplitudes in 64ths incl. specifications that cannot sum to one, initial_guess given or left out; "
+    "small scope: every mask for n <= 2 x 3-4 amplitude vectors x continuous/discretised x tmax finite/inf; non-trivial "
+    "when something is fixed or n >= 2), 'fbt' (fit_binding_times with n_components in 0..3 and observed_minimum / "
+    "discrete_model given or left out, constructor arguments and warnings recorded; small scope: 4 groups x 4 x 2 x 3 x 3), "
+    "small-scope fits (1-2 components x continuous/discretised x scalar/two windows x tmax finite/inf on quantile data)."
 )
 TRUSTED = [
     "RealLike formulas are executed at Float by the driver and compared with NumPy doubles within rel 1e-9 of a "
@@ -104,7 +142,12 @@ ASSUMPTIONS = [
     "tracks of one kymograph agree on its number of lines and line time (hypothesis `Consistent`; true by construction "
     "since both are read from the shared Kymo object)",
     "generated likelihood cases keep tmin/tau_min <= 60 and (tmax-tmin)/tau_max >= 0.05 so that neither exp underflow "
-    "nor catastrophic cancellation in the normalisation decides the comparison",
+    "nor catastrophic cancellation in the normalisation decides the comparison (the 'lik' stream; the 'likwin' stream goes "
+    "beyond on purpose -- tmin/tau up to 5000 -- and compares likelihood and components only: the Jacobian of the code still "
+    "forms exp(-t_min/tau) - exp(-t_max/tau) and is not compared there)",
+    "'assemble' cases keep every amplitude of the initial guess positive and in 64ths (sums exact in doubles, so that the "
+    "decisions `sum_fixed > 1` / allclose are the same on doubles and on exact rationals) and do not let a single free "
+    "amplitude be determined as exactly 0",
     "admissible amplitudes are those the optimiser may hand to the likelihood and its gradient: the interval [1e-9, 1 - 1e-9] "
     "of _exponential_mle_bounds (an amplitude of exactly zero has no two-sided numerical gradient and is not generated)",
     "gradient requests SLSQP makes during a fit are compared only when the requested point lies inside the family the 'lik' "
@@ -894,15 +937,111 @@ def impl_lik(case):
 
     observe(out, lambda: nll(amps, taus, "id"))
     observe(out, comps)
-    observe(out, jac)
-    observe(out, lambda: nll(amps[perm], taus[perm], "perm"))
-    for lo, hi, st in limit_classes(case):
-        observe(out, lambda: norm(lo, hi, st))
+    if case["op"] == "likwin":
+        # the regime the repair of F13 is about: only the likelihood was put into the factored form (the Jacobian still
+        # forms exp(-t_min/tau) - exp(-t_max/tau), which is 0 here), so likelihood and components are what is observed
+        observe(out, lambda: nll(amps[perm], taus[perm], "perm"))
+    else:
+        observe(out, jac)
+        observe(out, lambda: nll(amps[perm], taus[perm], "perm"))
+        for lo, hi, st in limit_classes(case):
+            observe(out, lambda: norm(lo, hi, st))
     if out[0] == "?":
         # neither the anchored function nor the public model could be brought to evaluate the likelihood at the given
         # parameters: nothing of this case is tied to the code any more, which is reported (not passed over in silence)
         out[0] = f"Error:TieBroken:private member {LOGLIK} is gone and DwelltimeModel could not be evaluated at given parameters"
     return out
+
+
+OPTIMIZE = "_exponential_mle_optimize"
+
+
+def impl_fbt(case):
+    """KymoTrackGroup.fit_binding_times with its options given or left out (None): the arguments it hands to the public
+    DwelltimeModel constructor (recorded; the fit itself is not run) and the warnings it issues"""
+    _BUILT.clear()
+    group = build_group(case)
+    kw = {"exclude_ambiguous_dwells": case["excl"]}
+    if case["om"] is not None:
+        kw["observed_minimum"] = case["om"]
+    if case["disc"] is not None:
+        kw["discrete_model"] = case["disc"]
+    with warnings.catch_warnings(record=True) as wlist:
+        warnings.simplefilter("always")
+        with model_arguments_recorded(False) as seen:
+            try:
+                group.fit_binding_times(case["n"], **kw)
+            except _Captured:
+                pass
+            except Exception as e:
+                return [errname(e)]
+    if not seen:
+        return ["Error:NoModelConstructed"]
+    removed = any(issubclass(w.category, RuntimeWarning) and "zero" in str(w.message).lower() for w in wlist)
+    w_om = any(issubclass(w.category, UserWarning) and "observed_minimum" in str(w.message) for w in wlist)
+    w_disc = any(issubclass(w.category, UserWarning) and "discrete_model" in str(w.message) for w in wlist)
+    a = seen[0]
+    d = np.asarray(a["dwelltimes"], dtype=float)
+    lo, hi = (np.broadcast_to(np.asarray(a[k], dtype=float), d.shape) for k in MODEL_ARGS[1:3])
+    st = a["discretization_timestep"]
+    handed = st is not None
+    st = np.full(d.shape, np.nan) if st is None else np.broadcast_to(np.asarray(st, dtype=float), d.shape)
+    return [f"? {enc_bool(handed)} {enc_bool(w_om)} {enc_bool(w_disc)} " + show_rows([d, lo, hi, st], removed)]
+
+
+def assemble_fitted(case):
+    """which parameters are left to the optimiser (from the docstring of _handle_amplitude_constraint: everything not
+    fixed, except a single free amplitude, which is determined by the others)"""
+    n = case["n"]
+    fixed = [False] * (2 * n) if case["mask"] is None else list(case["mask"])
+    fitted = [not f for f in fixed]
+    free = [i for i in range(n) if fitted[i]]
+    if len(free) == 1:
+        fitted[free[0]] = False
+    return fitted
+
+
+def impl_assemble(case):
+    """_exponential_mle_optimize with scipy.optimize.minimize replaced by a stand-in that records what it is handed
+    (start vector, bounds, the gradient callback's answer at `probe`) and answers `probe`"""
+    import scipy.optimize
+
+    n = case["n"]
+    # params None = initial_guess=None: the default guess every public DwelltimeModel fit starts from
+    params = None if case["params"] is None else np.array([float(Fraction(p)) for p in case["params"]], dtype=float)
+    mask = None if case["mask"] is None else np.array(case["mask"], dtype=bool)
+    t, tmin, tmax, step, _ = lik_args(case)
+    probe = np.array(case["probe"], dtype=float)
+    seen = {"x0": [], "lo": [], "hi": [], "grad": []}
+
+    def stand_in(fun, x0, *a, **kw):
+        x0 = np.array(x0, dtype=float)
+        x = probe[: len(x0)]
+        seen["x0"] = list(x0)
+        bounds = list(kw.get("bounds") or [])
+        seen["lo"] = [float(b[0]) for b in bounds]
+        seen["hi"] = [float(b[1]) for b in bounds]
+        jac = kw.get("jac")
+        f = fun(x)
+        seen["grad"] = list(np.array(jac(x), dtype=float)) if callable(jac) else None
+        seen["constraints"] = kw.get("constraints")
+        fun(x0)  # like SLSQP, the stand-in does not end on the point it answers: the cost callback last saw x0
+        return scipy.optimize.OptimizeResult(x=x, fun=f, success=True, status=0, message="stand-in", nit=0)
+
+    try:
+        opt = priv(OPTIMIZE, n, t, tmin, tmax, initial_guess=params, fixed_param_mask=mask, discretization_timestep=step)
+        with minimize_replaced(stand_in):
+            p, ll = opt(n, t, tmin, tmax, initial_guess=params, fixed_param_mask=mask, discretization_timestep=step)
+    except Unreachable:
+        return ["?"]
+    except Exception as e:
+        return [errname(e)]
+    cons = seen.get("constraints")
+    cval = "none"
+    if isinstance(cons, dict):
+        cval = enc_float(cons["fun"](probe[: len(seen["x0"])], *cons["args"]))
+    grad = "?" if seen["grad"] is None else fl(seen["grad"])
+    return [f"? {fl(seen['x0'])} {fl(seen['lo'])} {fl(seen['hi'])} {fl(p)} {enc_float(float(ll))} {grad} {cval}"]
 
 
 def impl(case):
@@ -916,8 +1055,12 @@ def impl(case):
 
 def _impl(case):
     k = case["op"]
-    if k == "lik":
+    if k in ("lik", "likwin"):
         return impl_lik(case)
+    if k == "assemble":
+        return impl_assemble(case)
+    if k == "fbt":
+        return impl_fbt(case)
     if k == "fit":
         t, tmin, tmax, step, n = lik_args(case)
         status = []
@@ -1245,6 +1388,14 @@ def extract_op(case, tracks, excl, obsmin):
 
 def ops(case):
     k = case["op"]
+    if k == "likwin":
+        amps, taus = case["amps"], case["taus"]
+        perm = case["perm"]
+        return [
+            f"c15.nll {fl(amps)} {fl(taus)} {lik_tokens(case)}",
+            f"c15.comps {fl(amps)} {fl(taus)} {lik_tokens(case)}",
+            f"c15.nll {fl([amps[i] for i in perm])} {fl([taus[i] for i in perm])} {lik_tokens(case)}",
+        ]
     if k == "lik":
         amps, taus = case["amps"], case["taus"]
         perm = case["perm"]
@@ -1306,6 +1457,19 @@ def ops(case):
                     nc = case["ncomp"]
                     out.append(f"c15.jac {fl(v[0][:nc])} {fl(v[0][nc:])} {lik_tokens(case)}")
         return out
+    if k == "fbt":
+        ob = lambda v: "N" if v is None else enc_bool(v)  # noqa: E731
+        body = extract_op(case, case["tracks"], case["excl"], True).split(" ")[3:]
+        return [" ".join(["c15.fbt", str(case["n"]), enc_bool(case["excl"]), ob(case["om"]), ob(case["disc"])] + body)]
+    if k == "assemble":
+        mask = "N" if case["mask"] is None else enc_list(case["mask"], enc_bool)
+        n = len(case["t"])
+        lo = float(np.min(arr(case["tmin"], n)))
+        hi = float(np.max(arr(case["tmax"], n)))
+        params = ("D:" + enc_rat(float(np.mean(np.array(case["t"], dtype=float)))) if case["params"] is None
+                  else enc_list(case["params"], enc_rat))
+        return [f"c15.assemble {case['n']} {params} {mask} {fl(case['probe'])} "
+                f"{lik_tokens(case)} {enc_float(lo)} {enc_float(hi)}"]
     if k == "constraint":
         mask = "N" if case["mask"] is None else enc_list(case["mask"], enc_bool)
         return [f"c15.constraint {case['n']} {enc_list(case['params'], enc_rat)} {mask} {enc_list(case['x'], enc_rat)}"]
@@ -1401,6 +1565,64 @@ def agree_extract(case, ia, ma, ordered):
 def agree(case, i, ia, ma):
     k = case["op"]
     try:
+        if k == "fbt":
+            if ia.endswith("Error") or ma.endswith("Error") or ma == "bad-op":
+                return ia == ma
+            I, M = ia.split(" "), ma.split(" ")
+            if I[1:4] != M[1:4]:
+                return False
+            R, f1 = parse_rows(" ".join(I[4:]))
+            Q, f2 = parse_rows(" ".join(M[4:]))
+            if f1 != f2 or len(R) != len(Q):
+                return False
+            for r, q in zip(R, Q):
+                for j, (x, y) in enumerate(zip(r, q)):
+                    xv = dec_float(x)
+                    if j == 3 and M[1] == "F":
+                        if not math.isnan(xv):
+                            return False
+                    elif not close(xv, float(dec_rat(y)), 1e-9, 1e-15):
+                        return False
+            return True
+        if k == "assemble":
+            if ia == "?":
+                return True
+            if ia.endswith("Error") or ma.endswith("Error") or ma == "bad-op":
+                return ia == ma
+            I, M = ia.split(" "), ma.split(" ")
+            fitted = [c == "T" for c in M[0][1:-1].split(",")] if M[0] != "[]" else []
+            for j in (1, 2, 3, 4):  # start vector, bounds, reported parameters: the same double operations on both sides
+                A, B = dec_fl(I[j]), dec_fl(M[j])
+                if len(A) != len(B) or not all(close(x, y, 1e-12) for x, y in zip(A, B)):
+                    return False
+            n = case["n"]
+            rep = dec_fl(I[4])
+            amps, taus = rep[:n], rep[n:]
+            t = np.array(case["t"], dtype=float)
+            if not close(dec_float(I[5]), dec_float(M[5]), 1e-9, 1e-11 * nll_scale(amps, taus, t)):
+                return False
+            if I[6] != "?":
+                A, B = dec_fl(I[6]), dec_fl(M[6])
+                no = len(t)
+                tol = grad_tolerance(amps, taus, t, arr(case["tmin"], no), arr(case["tmax"], no),
+                                     None if case["step"] is None else arr(case["step"], no), 1e-10, 0.0)
+                tol = [s_ for s_, f in zip(tol, fitted) if f]
+                if len(A) != len(B) or len(tol) != len(A) or not all(close(x, y, 1e-9, s_) for x, y, s_ in zip(A, B, tol)):
+                    return False
+            return True
+        if k == "likwin":
+            amps, taus = case["amps"], case["taus"]
+            t = np.array(case["t"], dtype=float)
+            if ia == "?":
+                return True
+            if ia.endswith("Error") or ma in ("bad-op",):
+                return False
+            if i in (0, 2):
+                return close(dec_float(ia), dec_float(ma), 1e-9, 1e-11 * nll_scale(amps, taus, t))
+            A, B = dec_mat(ia), dec_mat(ma)
+            sc = nll_scale(amps, taus, t) / max(1, len(t))
+            return len(A) == len(B) and all(
+                len(r) == len(q) and all(close(x, y, 1e-9, 1e-11 * sc) for x, y in zip(r, q)) for r, q in zip(A, B))
         if k == "lik":
             amps, taus = case["amps"], case["taus"]
             t = np.array(case["t"], dtype=float)
@@ -1510,6 +1732,12 @@ def oracle(case, ia):
     try:
         if k == "lik":
             return oracle_lik(case, ia)
+        if k == "likwin":
+            return oracle_likwin(case, ia)
+        if k == "assemble":
+            return oracle_assemble(case, ia)
+        if k == "fbt":
+            return oracle_fbt(case, ia)
         if k == "fit":
             return oracle_fit(case, ia)
         if k == "constraint":
@@ -1520,6 +1748,130 @@ def oracle(case, ia):
             return oracle_validate(case, ia)
     except Exception as e:  # an unparsable implementation answer is a failure of the implementation side
         return f"oracle-could-not-read-answer: {type(e).__name__}: {e}; answers {[a[:80] for a in ia]}"
+    return None
+
+
+def window_depth(case):
+    """largest (tmin_i - step_i) / tau_j: beyond ~745 exp(-tmin/tau) is 0 in double precision and the window probability
+    exp(-tmin/tau) - exp(-tmax/tau) can only be had in the factored form"""
+    n = len(case["t"])
+    tmin = arr(case["tmin"], n)
+    shift = tmin if case["step"] is None else tmin - arr(case["step"], n)
+    return float(np.max(shift)) / min(case["taus"])
+
+
+def oracle_likwin(case, ia):
+    """the likelihood is the truncated mixture density also where the window probability is below the range of doubles
+    (textbook formula in extended precision, whose exponent range reaches exp(-11000)); it is finite and relabelling-invariant"""
+    amps, taus = case["amps"], case["taus"]
+    n = len(case["t"])
+    t, tmin, tmax = np.array(case["t"], dtype=float), arr(case["tmin"], n), arr(case["tmax"], n)
+    step = None if case["step"] is None else arr(case["step"], n)
+    for a in ia:
+        if a.endswith("Error"):
+            return f"likelihood-evaluates: admissible parameters raised {a}"
+    if ia[0] == "?":
+        return None
+    with np.errstate(all="ignore"):
+        sc = nll_scale(amps, taus, t)
+        nll = dec_float(ia[0])
+        if not math.isfinite(nll):
+            return (f"likelihood-value: -log L = {nll!r} for admissible parameters inside the lifetime search bounds "
+                    f"(window probability below the range of doubles, largest tmin/tau = {window_depth(case):.0f})")
+        ref = float(o_nll(amps, taus, t, tmin, tmax, step))
+        if math.isfinite(ref) and not close(nll, ref, 1e-9, 1e-10 * sc):
+            return f"likelihood-value: -log L = {nll!r} but the truncated mixture density gives {ref!r}"
+        if ia[2] != "?":
+            nllp = dec_float(ia[2])
+            if not close(nll, nllp, 1e-10, 1e-12 * sc):
+                return f"relabel-invariant: -log L = {nll!r}, after relabelling components with {case['perm']} {nllp!r}"
+    return None
+
+
+def oracle_fbt(case, ia):
+    """from the documentation of fit_binding_times: an empty group cannot be analysed; only 1 and 2 components are
+    supported; observed_minimum left out means the legacy mode (with a warning), discrete_model left out means the
+    continuous model (with a warning): the time step is handed to the model iff discrete_model is True; the rows are those
+    of the property text for the mode in force"""
+    a = ia[0]
+    if not case["tracks"]:
+        return None if a == "RuntimeError" else f"fit-binding-times-empty-group: {a[:80]}"
+    if case["n"] not in (1, 2):
+        return None if a == "ValueError" else f"fit-binding-times-components: n_components={case['n']} gave {a[:80]}"
+    om = True if case["om"] is None else case["om"]
+    disc = False if case["disc"] is None else case["disc"]
+    derived = dict(case, op="extract", obsmin=om, via="fit", discrete=disc)
+    if a.endswith("Error"):
+        return oracle_extract(derived, [a])
+    toks = a.split(" ")
+    if (toks[1] == "T") != disc:
+        return f"fit-binding-times-step: discrete_model={case['disc']} but the time step was {'handed' if toks[1] == 'T' else 'not handed'} to the model"
+    if (toks[2] == "T") != (case["om"] is None):
+        return f"fit-binding-times-warning: observed_minimum={case['om']}, deprecation warning issued: {toks[2]}"
+    if (toks[3] == "T") != (case["disc"] is None):
+        return f"fit-binding-times-warning: discrete_model={case['disc']}, default warning issued: {toks[3]}"
+    return oracle_extract(derived, [" ".join(toks[4:])])
+
+
+def oracle_assemble(case, ia):
+    """from the property text: the reported log-likelihood is the model's likelihood at the reported parameters; fixed
+    parameters are reported as given, a single free amplitude completes the others to one, and what the optimiser
+    answered is reported in the fitted slots; the lifetime bounds are a proper interval"""
+    a = ia[0]
+    if a == "?":
+        return None
+    n = case["n"]
+    if case["params"] is None:
+        # documented default: equal amplitudes; lifetimes proportional to 1..n with the sample mean as their average
+        mean = Fraction(float(np.mean(np.array(case["t"], dtype=float))))
+        params = [Fraction(1, n)] * n + [mean * n * k / sum(range(1, n + 1)) for k in range(1, n + 1)]
+    else:
+        params = [Fraction(p) for p in case["params"]]
+    fixed = [False] * (2 * n) if case["mask"] is None else list(case["mask"])
+    sum_fixed = sum(p for p, f in zip(params[:n], fixed[:n]) if f)
+    free = [i for i in range(n) if not fixed[i]]
+    total = sum_fixed + (1 - sum_fixed if len(free) == 1 else 0)
+    invalid = sum_fixed > 1 or (len(free) <= 1 and abs(total - 1) > Fraction(11, 10**6))
+    if invalid:
+        return None if a == "ValueError" else f"constraint-simplex: an amplitude specification that cannot sum to one was accepted: {a[:120]}"
+    if a.endswith("Error"):
+        return f"fit-evaluates: valid fixed parameters and data inside the limits raised {a}"
+    I = a.split(" ")
+    x0, lo, hi, rep = dec_fl(I[1]), dec_fl(I[2]), dec_fl(I[3]), dec_fl(I[4])
+    ll = dec_float(I[5])
+    fitted = assemble_fitted(case)
+    k = sum(fitted)
+    probe = case["probe"][:k]
+    if len(rep) != 2 * n:
+        return f"reported-parameters: {len(rep)} parameters for {n} components"
+    it = iter(probe)
+    for i in range(2 * n):
+        if fitted[i]:
+            want = next(it)
+            if rep[i] != want:
+                return f"reported-parameters: the optimiser answered {want!r} for parameter {i}, reported is {rep[i]!r}"
+        elif i < n and not fixed[i]:
+            if abs(Fraction(rep[i]) - (1 - sum_fixed)) > Fraction(1, 10**12):
+                return f"amplitudes-sum-to-one: the only free amplitude is reported as {rep[i]!r}, the fixed ones sum to {float(sum_fixed)}"
+        elif abs(Fraction(rep[i]) - params[i]) > Fraction(1, 10**12) * abs(params[i]):
+            return f"fixed-parameter-changed: parameter {i} was fixed at {float(params[i])!r}, reported is {rep[i]!r}"
+    if k and (len(x0) != k or len(lo) != k or len(hi) != k):
+        return f"optimiser-arguments: {k} parameters are fitted, start vector/bounds have {len(x0)}/{len(lo)}/{len(hi)} entries"
+    for l, h, x in zip(lo, hi, x0):
+        if not l < h:
+            return f"search-bounds: empty interval ({l!r}, {h!r})"
+    nobs = len(case["t"])
+    t, tmin, tmax = np.array(case["t"], dtype=float), arr(case["tmin"], nobs), arr(case["tmax"], nobs)
+    step = None if case["step"] is None else arr(case["step"], nobs)
+    with np.errstate(all="ignore"):
+        ref = -float(o_nll(rep[:n], rep[n:], t, tmin, tmax, step))
+    if math.isfinite(ref) and not close(ll, ref, 1e-9, 1e-10 * nll_scale(rep[:n], rep[n:], t)):
+        return f"reported-likelihood: log L = {ll!r} reported, the truncated mixture density at the reported parameters gives {ref!r}"
+    if I[7] != "none":
+        cval = dec_float(I[7])
+        s_amp = sum(Fraction(v) for v in rep[:n])
+        if abs(Fraction(cval) - (1 - s_amp)) > Fraction(1, 10**9):
+            return f"constraint-simplex: constraint value {cval!r} at the optimiser's answer, 1 - sum of reported amplitudes is {float(1 - s_amp)!r}"
     return None
 
 
@@ -1831,6 +2183,12 @@ def nontrivial(case, ia):
     k = case["op"]
     if k == "lik":
         return len(case["amps"]) >= 2 or case["step"] is not None or case["tmax"] != "inf"
+    if k == "likwin":
+        return window_depth(case) > 745.0
+    if k == "fbt":
+        return case["om"] is None or case["disc"] is None or case["n"] not in (1, 2) or not case["tracks"]
+    if k == "assemble":
+        return not ia[0].endswith("Error") and (case["mask"] is not None and any(case["mask"]) or case["n"] >= 2)
     if k == "fit":
         return " " in ia[0]
     if k == "constraint":
@@ -1852,9 +2210,9 @@ def nontrivial(case, ia):
 
 def tags(case, r):
     t = {"op": case["op"]}
-    if case["op"] in ("lik", "fit"):
+    if case["op"] in ("lik", "fit", "likwin"):
         t["discrete"] = case["step"] is not None
-        t["ncomp"] = len(case["amps"]) if case["op"] == "lik" else case["ncomp"]
+        t["ncomp"] = len(case["amps"]) if case["op"] != "fit" else case["ncomp"]
     if case["op"] == "fit":
         t["window_underflow_within_bounds"] = underflow_within_bounds(case)
         first = r["impl"][0].split(" ")[0]
@@ -1871,7 +2229,7 @@ def tags(case, r):
 
 def shrink(case):
     k = case["op"]
-    if k in ("lik", "validate") and len(case["t"]) > 1:
+    if k in ("lik", "likwin", "validate", "assemble") and len(case["t"]) > 1:
         n = len(case["t"])
         for keep in (slice(0, n // 2), slice(n // 2, n), slice(0, n - 1), slice(1, n)):
             c = dict(case)
@@ -1880,7 +2238,7 @@ def shrink(case):
                     c[key] = case[key][keep]
             if len(c["t"]) >= 1:
                 yield c
-    if k == "lik" and len(case["amps"]) > 1:
+    if k in ("lik", "likwin") and len(case["amps"]) > 1:
         for drop in range(len(case["amps"])):
             c = dict(case)
             a = [x for i, x in enumerate(case["amps"]) if i != drop]
@@ -1909,7 +2267,7 @@ def shrink(case):
                     c["steps"] = [dict(x) for x in steps]
                     c["steps"][i]["tracks"] = st["tracks"][:j] + st["tracks"][j + 1:]
                     yield c
-    if k == "extract":
+    if k in ("extract", "fbt"):
         for i in range(len(case["tracks"])):
             if len(case["tracks"]) > 1:
                 c = dict(case)
@@ -2101,6 +2459,109 @@ def gen_fit(rng, tier, i):
         tmax = "inf"  # the closed-form case
     return {"stream": "random-fit", "op": "fit", "ncomp": n, "gen_amps": amps, "gen_taus": taus, "t": t, "tmin": tmin,
             "tmax": tmax, "step": step, "subseed": i}
+
+
+def small_scope_fits():
+    """every combination of {1, 2 components} x {continuous, discretised} x {scalar limits, two windows} x {tmax finite,
+    inf} on deterministic data (quantiles of the components inside each window): the ops that only fits reach (bounds,
+    pdfpool, quadpool, the closed form, the gradients handed to SLSQP) are run on all of them in every run"""
+    qs = [(k + 0.5) / 12.0 for k in range(12)]
+    for n in (1, 2):
+        amps, taus = ([1.0], [1.5]) if n == 1 else ([0.4, 0.6], [0.6, 4.0])
+        for step in (None, 0.25):
+            for windows in ([(0.5, 12.5)], [(0.5, 12.5), (1.0, 21.0)]):
+                for unbounded in (False, True):
+                    t, lo, hi, st = [], [], [], []
+                    for (a, b) in windows:
+                        b_ = math.inf if unbounded else b
+                        for tau in taus:
+                            for q in qs:
+                                x = a - tau * math.log(1.0 - q)
+                                if step is not None:
+                                    x = a + float(math.floor((x - a) / step + 0.5)) * step
+                                if x <= b_ and (step is not None or x > a):
+                                    t.append(x)
+                                    lo.append(a)
+                                    hi.append("inf" if unbounded else b)
+                                    st.append(step)
+                    scalar = len(windows) == 1
+                    yield {"stream": "small-scope", "op": "fit", "ncomp": n, "gen_amps": amps, "gen_taus": taus, "t": t,
+                           "tmin": lo[0] if scalar else lo, "tmax": hi[0] if scalar else hi,
+                           "step": None if step is None else (step if scalar else st)}
+
+
+def gen_likwin(rng, i):
+    """parameters inside the lifetime search bounds at which the window probability of some observation is below the range
+    of doubles: observation limits of two kymographs whose minimum observable times differ by a factor 160-2000 (what
+    finding F13 was about), the shortest lifetime between 1/5000 and 1/750 of the larger minimum (and never below the
+    optimiser's lower bound 0.1 * min(tmin))"""
+    n = rng.choice([1, 2, 2, 3])
+    amps = simplex(rng, n)
+    discrete = rng.chance(0.5)
+    lo1 = rng.choice([0.01, 0.05, 0.1, rng.loguniform(0.005, 0.5)])
+    ratio = rng.choice([160.0, 200.0, 750.0, rng.loguniform(160.0, 2000.0)])
+    lo2 = lo1 * ratio
+    per_line = rng.choice([2, 2, 4, 3]) if discrete else 1  # minimum observable time in line times (discretised model)
+    depth = rng.choice([746.0, 800.0, 1500.0, rng.uniform(750.0, 5000.0)])
+    depth = min(depth, 5.0 * ratio)  # tau_min >= 0.1 * lo1: inside _exponential_mle_bounds
+    tau_min = (lo2 - lo2 / per_line if discrete else lo2) / depth
+    taus = [tau_min] + [tau_min * rng.choice([3.0, 10.0, 30.0, rng.loguniform(1.5, 100.0)]) for _ in range(n - 1)]
+    rng.shuffle(taus)
+    classes = []
+    for lo in (lo1, lo2):
+        st = lo / per_line if discrete else None
+        if rng.chance(0.3):
+            hi = math.inf
+        elif discrete:
+            hi = lo + float(rng.choice([1, 2, 5, rng.randint(1, 400)])) * st
+        else:
+            hi = lo + max(taus) * rng.choice([0.05, 0.5, 3.0, rng.loguniform(0.05, 50.0)])
+        classes.append((lo, hi, st))
+    t, lo_, hi_, st_ = [], [], [], []
+    for j in range(rng.choice([2, 3, 8, rng.randint(2, 60)])):
+        lo, hi, st = classes[j % 2]
+        t.append(sample_dwell(rng, amps, taus, lo, hi, st))
+        lo_.append(lo)
+        hi_.append("inf" if hi == math.inf else hi)
+        st_.append(st)
+    perm = list(range(n))
+    if n > 1:
+        while perm == list(range(n)):
+            rng.shuffle(perm)
+    return {"stream": "random-likwin", "op": "likwin", "amps": amps, "taus": taus, "t": t, "tmin": lo_, "tmax": hi_,
+            "step": (st_ if discrete else None), "perm": perm, "subseed": i}
+
+
+def gen_assemble(rng, tier, i):
+    """a fit with some parameters fixed: 1-3 components, amplitudes in 64ths (sums exact in doubles), every kind of mask
+    (none, all fixed, one/several free amplitudes, fixed lifetimes), data of the usual kinds; `probe` is the answer the
+    stand-in optimiser gives (amplitudes anywhere inside the bounds, not necessarily on the simplex)"""
+    n = rng.choice([1, 2, 2, 3, 3])
+    pa, pt = gen_params(rng, n)
+    discrete = rng.chance(0.5)
+    size = rng.choice([1, 2, 5, rng.randint(1, 40), rng.randint(20, 200)])
+    t, tmin, tmax, step = gen_obs(rng, pa, pt, discrete, size, rng.chance(0.4), one_scale=True)
+    cuts = sorted(rng.randint(0, 64) for _ in range(n - 1))
+    ks = [b - a for a, b in zip([0] + cuts, cuts + [64])]
+    if rng.chance(0.15):
+        ks[rng.randint(0, n - 1)] += rng.choice([1, -1, 8, 64])  # does not sum to one: matters when <= 1 amplitude is free
+    amps = [Fraction(max(k, 1), 64) for k in ks]  # admissible: every amplitude positive
+    taus = [Fraction(x * rng.choice([0.5, 1.0, 1.0, 2.0, 1.25])) for x in pt]
+    mask = None if rng.chance(0.15) else [rng.chance(0.45) for _ in range(2 * n)]
+    if mask is not None and rng.chance(0.15):
+        mask = [True] * n + mask[n:]
+    if mask is not None and sum(1 for f in mask[:n] if not f) == 1 and sum(a for a, f in zip(amps, mask[:n]) if f) == 1:
+        # the single free amplitude would be determined as 0: outside the admissible family (log-likelihood of a
+        # component with amplitude 0); free a second amplitude instead
+        mask[[i for i in range(n) if mask[i]][0]] = False
+    case = {"stream": "random-assemble", "op": "assemble", "n": n, "params": [str(p) for p in amps + taus], "mask": mask,
+            "t": t, "tmin": tmin, "tmax": tmax, "step": step, "subseed": i}
+    if rng.chance(0.25):
+        case["params"] = None  # initial_guess=None: the default guess (always a valid amplitude specification)
+    qa = simplex(rng, n) if rng.chance(0.5) else [rng.loguniform(1e-3, 0.9) for _ in range(n)]
+    full = qa + [x * rng.loguniform(0.5, 2.0) for x in pt]
+    case["probe"] = [v for v, f in zip(full, assemble_fitted(case)) if f]
+    return case
 
 
 def gen_constraint(rng, i):
@@ -2423,8 +2884,19 @@ def cases(tier, rng):
                               {"kymo": 1, "idx": [], "minobs": 0.5} if minobs else {"kymo": 1, "idx": [1], "minobs": None}]}
 
     # ---- seeded random streams
-    sizes = {"lik": 260, "fit": 140, "constraint": 400, "extract": 500, "extract-seq": 300, "validate": 60} if quick else \
-            {"lik": 4000, "fit": 2500, "constraint": 6000, "extract": 8000, "extract-seq": 5000, "validate": 600}
+    sizes = {"lik": 260, "fit": 140, "constraint": 400, "extract": 500, "extract-seq": 300, "validate": 60, "likwin": 120, "assemble": 250, "fbt": 150} if quick else \
+            {"lik": 4000, "fit": 2500, "constraint": 6000, "extract": 8000, "extract-seq": 5000, "validate": 600, "likwin": 800, "assemble": 2000, "fbt": 1200}
+    # ---- small scope: window probability below the range of doubles (the factored normalisation), all combinations
+    for amps, taus in (([1.0], [0.001]), ([0.25, 0.75], [0.001, 0.01]), ([0.5, 0.25, 0.25], [0.01, 0.001, 0.1])):
+        for lo2 in (1.0, 4.0):
+            for hi in (0.5, 3.0, "inf"):
+                for step in (None, 0.005):
+                    lo1 = 0.01
+                    his = ["inf", "inf"] if hi == "inf" else [lo1 + hi, lo2 + hi]
+                    ts = [lo1, lo1 + 0.005, lo2, lo2 + 0.005] if step else [lo1 + 0.001, lo1 + 0.004, lo2 + 0.001, lo2 + 0.004]
+                    yield {"stream": "small-scope", "op": "likwin", "amps": amps, "taus": taus, "t": ts,
+                           "tmin": [lo1, lo1, lo2, lo2], "tmax": [his[0], his[0], his[1], his[1]],
+                           "step": None if step is None else [step] * 4, "perm": list(reversed(range(len(amps))))}
     r = rng.fork("c15-lik")
     for i in range(sizes["lik"]):
         yield gen_lik(r.fork(i), tier, i)
@@ -2443,6 +2915,46 @@ def cases(tier, rng):
     r = rng.fork("c15-validate")
     for i in range(sizes["validate"]):
         yield gen_validate(r.fork(i), i)
+    # ---- small scope: what is handed to the optimiser, every mask for n <= 2 x amplitude vectors x model kind
+    for n, amp_sets, taus in ((1, [["1"], ["1/2"], None], ["1/2"]), (2, [["1/4", "3/4"], ["1/2", "1/4"], ["3/4", "1/2"], None], ["1/2", "4"])):
+        for amps in amp_sets:
+            for mask in [None] + [list(m) for m in itertools.product([False, True], repeat=2 * n)]:
+                for step in (None, 0.25):
+                    for tmax in (6.0, "inf"):
+                        c = {"stream": "small-scope", "op": "assemble", "n": n, "params": None if amps is None else amps + taus, "mask": mask,
+                             "t": [0.5, 0.75, 1.5, 4.0], "tmin": 0.5, "tmax": tmax, "step": step}
+                        full = ([0.3, 0.6] if n == 2 else [0.9]) + ([0.7, 3.0] if n == 2 else [1.1])
+                        c["probe"] = [v for v, f in zip(full, assemble_fitted(c)) if f]
+                        yield c
+    # (the streams added in round D fork the generator AFTER all earlier streams: forks are drawn in order, so the cases
+    #  of the earlier streams stay what they were for every VERIF_SEED)
+    r = rng.fork("c15-likwin")
+    for i in range(sizes["likwin"]):
+        yield gen_likwin(r.fork(i), i)
+    yield from small_scope_fits()
+    # ---- small scope: fit_binding_times' own options: every combination of n_components x given/left-out flags on four groups
+    kym = [{"n_lines": 6, "line_time": 0.25}, {"n_lines": 5, "line_time": 0.5}]
+    groups = [[], [{"kymo": 0, "idx": [1, 2, 4], "minobs": 0.25}],
+              [{"kymo": 0, "idx": [0, 1], "minobs": 0.25}, {"kymo": 0, "idx": [2, 2], "minobs": 0.25}],
+              [{"kymo": 0, "idx": [1, 3], "minobs": 0.5}, {"kymo": 1, "idx": [1, 2, 3], "minobs": 0.5},
+               {"kymo": 0, "idx": [2, 3], "minobs": 0.25}, {"kymo": 1, "idx": [2], "minobs": None}]]
+    for tracks in groups:
+        for ncomp in (0, 1, 2, 3):
+            for excl, om, disc in itertools.product([False, True], [None, False, True], [None, False, True]):
+                yield {"stream": "small-scope", "op": "fbt", "kymos": kym, "tracks": tracks, "n": ncomp, "excl": excl,
+                       "om": om, "disc": disc, "via": "fit"}
+    r = rng.fork("c15-fbt")
+    for i in range(sizes["fbt"]):
+        ri = r.fork(i)
+        c = gen_extract(ri.fork("group"), i, via="fit")
+        if any(not tr["idx"] for tr in c["tracks"]):
+            continue
+        yield {"stream": "random-fbt", "op": "fbt", "kymos": c["kymos"], "tracks": c["tracks"],
+               "n": ri.choice([1, 1, 2, 2, 0, 3]), "excl": c["excl"], "om": ri.choice([None, None, False, True]),
+               "disc": ri.choice([None, None, False, True]), "via": "fit", "subseed": i}
+    r = rng.fork("c15-assemble")
+    for i in range(sizes["assemble"]):
+        yield gen_assemble(r.fork(i), tier, i)
 
 
 def extra_coverage(results):
@@ -2460,6 +2972,12 @@ def extra_coverage(results):
            "fit-refused-rows-outside-their-own-limits": 0}
     seq_edits = {}
     rare_lik = 0
+    deep = {"cases": 0, "depth-745-1000": 0, "depth-1000-2500": 0, "depth-2500-5000": 0, "tmax-inf": 0, "discretised": 0}
+    fbt = {"cases": 0, "observed_minimum-left-out": 0, "discrete_model-left-out": 0, "RuntimeError": 0, "ValueError": 0,
+           "model-constructed": 0, "step-handed": 0}
+    mle1 = {"closed-form-inside-the-bounds": 0, "closed-form-below-the-lower-bound": 0}
+    asm = {"cases": 0, "ValueError": 0, "nothing-to-fit": 0, "all-fitted": 0, "some-fixed": 0, "one-free-amplitude": 0,
+           "fixed-lifetime": 0, "constraint-handed": 0, "default-initial-guess": 0}
     handed = {"fits": 0, "gradient-requests": 0, "inside-the-explored-family": 0, "fits-with-a-request-checked": 0,
               "checked-with-an-amplitude-below-1e-3": 0, "checked-with-an-amplitude-below-1e-6": 0}
     pooled = {"fits-with-array-limits": 0, "several-distinct-windows": 0, "density-integrated": 0, "points-outside-some-window": 0}
@@ -2491,6 +3009,43 @@ def extra_coverage(results):
                 1 for x in pool_points(c) if any(not (lo <= x < hi) for (lo, hi, _), _ in cl) and any(lo <= x < hi for (lo, hi, _), _ in cl))
         if c["op"] == "lik" and min(c["amps"]) < 1e-4:
             rare_lik += 1
+        if c["op"] == "fit" and " " in r["impl"][0] and "mle1" in fit_layout(c):
+            nn = len(c["t"])
+            tt, lo_ = np.array(c["t"], dtype=float), arr(c["tmin"], nn)
+            inside = float(np.mean(tt - lo_)) >= max(0.1 * float(np.min(lo_)), 1e-8)
+            mle1["closed-form-inside-the-bounds" if inside else "closed-form-below-the-lower-bound"] += 1
+        if c["op"] == "fbt":
+            a = r["impl"][0]
+            fbt["cases"] += 1
+            fbt["observed_minimum-left-out"] += c["om"] is None
+            fbt["discrete_model-left-out"] += c["disc"] is None
+            if a.endswith("Error"):
+                fbt[a] = fbt.get(a, 0) + 1
+            else:
+                fbt["model-constructed"] += 1
+                fbt["step-handed"] += a.split(" ")[1] == "T"
+        if c["op"] == "assemble":
+            asm["cases"] += 1
+            a = r["impl"][0]
+            if a.endswith("Error"):
+                asm["ValueError"] += 1
+            elif a != "?":
+                fitted = assemble_fitted(c)
+                fixed = [False] * (2 * c["n"]) if c["mask"] is None else c["mask"]
+                asm["nothing-to-fit"] += not any(fitted)
+                asm["all-fitted"] += all(fitted)
+                asm["some-fixed"] += any(fixed)
+                asm["one-free-amplitude"] += sum(1 for f in fixed[: c["n"]] if not f) == 1
+                asm["fixed-lifetime"] += any(fixed[c["n"]:])
+                asm["constraint-handed"] += a.split(" ")[7] != "none"
+                asm["default-initial-guess"] += c["params"] is None
+        if c["op"] == "likwin":
+            d = window_depth(c)
+            deep["cases"] += 1
+            deep["discretised"] += c["step"] is not None
+            deep["tmax-inf"] += "inf" in c["tmax"]
+            if d > 745.0:
+                deep["depth-745-1000" if d <= 1000 else ("depth-1000-2500" if d <= 2500 else "depth-2500-5000")] += 1
         if c["op"] in ("lik", "fit"):
             k = len(c["amps"]) if c["op"] == "lik" else c["ncomp"]
             ncomp[f"{c['op']}-{k}"] = ncomp.get(f"{c['op']}-{k}", 0) + 1
@@ -2545,7 +3100,9 @@ def extra_coverage(results):
     return {"case_kinds": kinds, "error_kinds": errs, "components": ncomp, "observations_per_case": nobs, "limits": limits,
             "windows": windows, "model_kind": model_kind, "slsqp_exit_of_fits": slsqp, "discrete_inf_sums_not_covering_support_skipped": uncovered,
             "extraction": ext, "extraction_same_group_object_edited": dict(seq, edits=seq_edits), "amplitude_constraint": cons, "pdf_of_pooled_windows": pooled,
-            "gradient_handed_to_the_optimiser": handed, "lik_cases_with_an_amplitude_below_1e-4": rare_lik, "exhaustive": False,
+            "gradient_handed_to_the_optimiser": handed, "lik_cases_with_an_amplitude_below_1e-4": rare_lik,
+            "likelihood_with_window_probability_below_the_range_of_doubles": deep,
+            "optimiser_assembly_with_fixed_parameters": asm, "one_component_closed_form": mle1, "fit_binding_times_options": fbt, "exhaustive": False,
             "exhaustive_note": "the small-scope streams enumerate their finite spaces completely; the random streams do not",
             "dropped_for_margin": dict(_DROPPED),
             "private_members_the_harness_could_not_reach": dict(_UNREACHABLE)}
